@@ -462,6 +462,24 @@ def run(facts, R):
     # ---------------- one-next-per-chunk: `next` is not idempotent (the server advances by one chunk per request it
     # handles), so a puller sends it exactly once per chunk: never re-sent after an error or timeout, and the chunk of
     # each answered request is consumed before the next request goes out
+    # ... which every transport adapter has to respect, whoever wraps whom: an in-crate implementation of AsyncSvsClient::svs_call (the
+    # client adapters, and any wrapper added later - a heartbeat, a tracing or a retrying client) passes each request on exactly once; a
+    # wrapper that re-issues the call after a timer tick re-sends `next`
+    n_impl = 0
+    for p_, b_ in sorted(facts.bodies.items()):
+        if "AsyncSvsClient>::svs_call" not in p_ or "::tests::" in p_:
+            continue
+        if not p_.endswith("::svs_call::{closure#0}"):
+            continue        # (the coroutine body of the async fn; the outer function only builds it)
+        n_impl += 1
+        down = [(i_, t_) for i_, t_ in b_.calls() if t_["callee"]["name"] in ("svs_call", "call_with_formats", "call_with_formats_and_timeout", "call_message", "call_message_with_formats_and_timeout")
+                or (t_["callee"]["name"].startswith("call_") and t_["callee"]["path"].split("::")[0] in ("async_client", "websocket_client"))]
+        from analysis.flow import in_cycle as _ic
+        pc_ = path_counts(b_, [i_ for i_, _ in down]) if down else None
+        R.check(bool(down) and not any(_ic(b_, i_) for i_, _ in down) and pc_ is not None and pc_[1] <= 1, "one-next-per-chunk", p_, "an svs_call adapter passes the request on once",
+                "this AsyncSvsClient::svs_call can send the request it was given more than once (%d forwarding sites, in a loop: %s): `next` is not idempotent - the server "
+                "answers every copy and each abandoned copy swallows a chunk" % (len(down), any(_ic(b_, i_) for i_, _ in down)), b_.span, "one forwarding call, outside any loop")
+    R.floor("one-next-per-chunk", n_impl, 2, "in-crate implementations of AsyncSvsClient::svs_call")
     n_next = 0
     for b in facts.bodies.values():
         if not b.path.startswith("value_stream::") or "register_svs" in b.path:
@@ -550,6 +568,40 @@ def run(facts, R):
             R.check(last or dropped, "eof-only-after-last", pl.path, "Ok only on last or receiver-dropped", "pull loop returns Ok under %s" % [x[-80:] for x in g], st.get("span"),
                     "last edge" if last else "consumer dropped its receiver")
     R.floor("eof-only-after-last", n_ok_rows, 2, "Ok exits of pull_loop_async")
+
+    # ---------------- the blocking puller's reader hands out each chunk's bytes once: whatever method of ChunkReader gives bytes to the
+    # consumer (read, and any Read / BufRead method overridden later - read_to_end, read_exact, fill_buf) takes them from buf[pos..];
+    # the whole buffer (mem::take / clone / to_vec / extend_from_slice(&buf)) would repeat the prefix an earlier partial read consumed
+    n_rd = 0
+    for b_ in facts.bodies.values():
+        if "ChunkReader" not in b_.path or not b_.path.startswith(("value_stream::", "<value_stream::")) or b_.path.endswith("::fetch") or "::tests::" in b_.path:
+            continue
+        s_ = Sym(b_)
+        for i_, t_ in b_.calls():
+            for k_, a_ in enumerate(t_["args"]):
+                v_ = s_.op(a_)
+                while v_[0] == "call" and len(v_[2]) == 1 and v_[1].rsplit("::", 1)[-1] in ("deref", "deref_mut", "as_ref", "borrow", "as_slice", "as_mut"):
+                    v_ = v_[2][0]
+                if not (v_[0] == "field" and v_[2] == "buf" and v_[1][0] in ("arg", "call", "field")):
+                    continue
+                nm = t_["callee"]["name"]
+                if nm in ("len", "is_empty", "deref", "deref_mut", "as_slice", "capacity"):
+                    continue
+                n_rd += 1
+                okr = False
+                if nm in ("index", "index_mut", "get", "get_mut") and len(t_["args"]) == 2 and k_ == 0:
+                    rng = s_.op(t_["args"][1])
+                    start = dict(rng[3]).get("start") if rng[0] == "agg" and "Range" in str(rng[1]) else None
+                    okr = start is not None and any(x[0] == "field" and x[2] == "pos" for x in walk(start))
+                if not okr:
+                    # the whole buffer is the unread rest exactly when nothing of it was consumed yet
+                    from rules.common import cmp_facts
+                    okr = any(o_ == "Eq" and ((render(x_).endswith(".pos") and const_val(y_) == 0) or (render(y_).endswith(".pos") and const_val(x_) == 0))
+                              for (o_, x_, y_) in cmp_facts(facts_at(b_, s_, facts, i_)))
+                R.check(okr, "no-byte-discard", b_.path, "the reader hands out buf[pos..] only",
+                        "%s uses the whole chunk buffer through `%s`: bytes before `pos`, which an earlier read already delivered, are delivered again "
+                        "(or the unread rest is dropped)" % (b_.path.rsplit("::", 1)[-1], nm), t_.get("span"), "buf[pos..]")
+    R.floor("no-byte-discard", n_rd, 1, "uses of ChunkReader.buf in its reading methods")
 
     # ---------------- no-byte-discard --------------------------------------------------------------------------------------
     sink_fns = [b for b in facts.bodies.values() if "ChunkSink" in b.path]
